@@ -45,7 +45,7 @@ def cases(tier, seed, i, n):
             hs = HIST if tier == 'thorough' else [HIST[(gi + k * 5) % len(HIST)] for k in range(4)]
             for h in hs:
                 for rep in range(1 if tier == 'quick' else 3):
-                    yield dict(p=p, r=r, t=t, c=c, h=h, hseed=rnd.randrange(1 << 30))
+                    yield dict(p=p, r=r, t=t, c=c, h=h, hseed=rnd.randrange(1 << 30), no_auto_pong=bool((gi + rep) % 3 == 0))
         yield gen.mark('full grid poll x ping_rate x ping_timeout x close_timeout (3x5x5x4)')
         # a clock that reads round decimal values (epoch 0): multiples of the ping rate and poll instants then
         # coincide up to the last bit, which is where "next multiple in the future" computed in floats can be wrong
@@ -55,7 +55,7 @@ def cases(tier, seed, i, n):
         for _ in range(4000 if tier == 'quick' else 1500000):
             yield dict(p=rnd.choice(POLLS + (0.25, 1.0, 3.0, 0.1, 0.3)), r=rnd.choice(RATES + (0.5, 2.0, 0.3, 0.1, 1.1)),
                        t=rnd.choice(PTIMEOUTS + (0.4, 2.0)), c=rnd.choice(CTIMEOUTS + (0.5, 2.0)),
-                       h=rnd.choice(HIST), hseed=rnd.randrange(1 << 30))
+                       h=rnd.choice(HIST), hseed=rnd.randrange(1 << 30), no_auto_pong=rnd.random() < 0.3)
     return gen.shard(allcases(), i, n)
 
 
@@ -124,7 +124,9 @@ def run_case(case, acc):
     steps, table, horizon = build(case)
     w = H.World(H.hs_server(steps), horizon=horizon, stop_at=horizon, budget=60000,
                 clock_base=0.0 if case.get('round_clock') else None, snap=9 if case.get('round_clock') else None)
-    run = H.drive(w, connect_kwargs=dict(poll=p, ping_rate=r, ping_timeout=t, close_timeout=c), policy=H.TablePolicy(table))
+    # auto_pong is about answering the SERVER's pings; it must not change anything the statement talks about
+    ap = dict(auto_pong=False) if case.get('no_auto_pong') else {}
+    run = H.drive(w, connect_kwargs=dict(poll=p, ping_rate=r, ping_timeout=t, close_timeout=c, **ap), policy=H.TablePolicy(table))
     key, detail, fired = judge(case, run, w, acc, horizon)
     if key is None and case['hseed'] % 3 == 0:
         # reconnect: the same history once more on the SAME WebSocket object must obey the same timing rules
@@ -135,7 +137,7 @@ def run_case(case, acc):
             pass
         steps2, table2, _h = build(case)
         w2 = H.World(H.hs_server(steps2), horizon=horizon, stop_at=horizon, budget=60000)
-        run2 = H.drive(w2, ws=run.ws, connect_kwargs=dict(poll=p, ping_rate=r, ping_timeout=t, close_timeout=c), policy=H.TablePolicy(table2))
+        run2 = H.drive(w2, ws=run.ws, connect_kwargs=dict(poll=p, ping_rate=r, ping_timeout=t, close_timeout=c, **ap), policy=H.TablePolicy(table2))
         acc.count2('oracle', 'reconnect_runs')
         key, detail, fired2 = judge(case, run2, w2, acc, horizon)
         if key and key != 'INCONCLUSIVE':
